@@ -67,6 +67,17 @@ CHECKS: dict[str, dict[str, str]] = {
         "technique": "TLA+ BIP32 specification (HMAC-SHA512 + EC in TLA+); TLC model-checks the laws on an abstract group and validates recorded derivations",
         "design_ref": "DESIGN.md section 4 C07",
     },
+    "C08": {
+        "text": ("A byte-level transcription of Core's EvalScript / VerifyScript / VerifyWitnessProgram (every opcode but the signature family, all "
+                 "limits, MINIMALDATA / MINIMALIF / CLTV / CSV / NOP / CLEANSTACK / SIGPUSHONLY / witness malleation rules, P2SH and witness v0) "
+                 "is first held to Core's script_tests.json (996 signature-free vectors: identical verdicts); TLC then builds every program over "
+                 "five chunk families up to a length with machine invariants checked in each state, and each program is run through "
+                 "engine.script.verify_script (verdict and final stack compared); random spends (bare, P2SH, P2WSH, P2SH-P2WSH, unknown witness "
+                 "versions, mutated scriptSigs/witnesses) under random consistent flag subsets are validated by TLC. Spends that execute a "
+                 "signature opcode or taproot are not decided by this instantiation."),
+        "technique": "TLA+ transcription of Core's script interpreter validated on Core's vectors; TLC-generated programs replayed into the engine; spends validated as traces",
+        "design_ref": "DESIGN.md section 4 C08",
+    },
     "C09": {
         "text": ("TLC checks the commitment matrix of the three algorithms on the specification (SigHashModel: digest changes iff the BIPs "
                  "say the hash type commits to the field, 810 combinations); digests recorded from every public route -- sig_hash.legacy / "
